@@ -133,8 +133,7 @@ func treeDeletes(op *storex.Op) (out []string) {
 	return
 }
 
-func shapeOf(q *query, op *storex.Op, before, after *storex.Snap, ob, oa obs) string {
-	b, a := &before.T, &after.T
+func shapeOf(q *query, trees []string, b, a *state.VerifStoreTables, ob, oa obs) string {
 	switch q.Kind {
 	case "NodeServices", "NodeServiceList":
 		// Store.nodeServices: a name shorter than minUUIDLookupLen that is not found returns index 0
@@ -151,7 +150,7 @@ func shapeOf(q *query, op *storex.Op, before, after *storex.Snap, ob, oa obs) st
 		if strings.HasPrefix(q.Key, "\x00") {
 			return "kv:list:prefix-with-leading-NUL:tombstone-lookup-trims-it"
 		}
-		for _, d := range treeDeletes(op) {
+		for _, d := range trees {
 			// kvsDeleteTreeTxn leaves ONE tombstone, on the tree prefix itself (none for the empty prefix); a list
 			// prefix that is longer than the tree prefix never sees it
 			if len(d) < len(q.Key) && strings.HasPrefix(q.Key, d) {
